@@ -48,6 +48,8 @@ def suite_unused(wt):
 def demo_place(src_dir, wt):
     """returns (command, cwd, cleanup paths)"""
     demo_go = [f for f in os.listdir(src_dir) if f.endswith("_test.go")]
+    if os.path.exists(os.path.join(src_dir, "demo.sh")):
+        demo_go = []  # the script drives the demonstration (it may use a test file of its own)
     if demo_go:
         placed = []
         cwd = None
@@ -161,6 +163,15 @@ def main():
     result["caught"] = any(v["exit"] == 1 for v in detected.values())
     dst = os.path.join("/verif/seeded", a.name)
     os.makedirs(dst, exist_ok=True)
+    if a.skip_confirm:
+        # keep the record of the confirmation done earlier
+        try:
+            prev = json.load(open(os.path.join(dst, "meta.json")))
+            if prev.get("confirmed_in_scratch_worktree") is not None:
+                result["confirmed"] = prev["confirmed_in_scratch_worktree"]
+                result["ran"] = prev.get("what_was_run", []) + [{"note": "checks re-run later against the final harness (confirmation above not repeated)"}]
+        except Exception:
+            pass
     for f in os.listdir(a.src):
         if f != "meta.json":
             shutil.copy(os.path.join(a.src, f), os.path.join(dst, f))
